@@ -157,7 +157,7 @@ pub fn alloc_limit(file_len: usize) -> usize { (64 << 20) + 64 * file_len }
 #[derive(Clone, Debug, Serialize, Deserialize)]
 pub struct Violation { pub class: String, pub signature: String, pub summary: String, pub mutation: Option<Mutation> }
 
-fn msg_class(m: &str) -> String {
+pub fn msg_class(m: &str) -> String {
   // strip numbers so that one root cause is one signature
   let mut out = String::new();
   let mut last_digit = false;
@@ -544,7 +544,7 @@ pub struct RunOut {
 
 fn bump(m: &mut BTreeMap<String, u64>, k: &str, n: u64) { *m.entry(k.to_string()).or_insert(0) += n; }
 
-pub struct Plan { pub program: usize, pub hs_producer: u64, pub hs_consumer: u64, pub enumerate: bool, pub trials: usize, pub via_file: bool }
+pub struct Plan { pub program: usize, pub hs_producer: u64, pub hs_consumer: u64, pub enumerate: bool, pub trials: usize, pub io_trials: usize, pub via_file: bool }
 
 /// A program made of literal definitions only: every constant class the compiler can put into the
 /// constant table, with variable-width elements (strings of differing byte lengths, multi-byte
@@ -623,7 +623,8 @@ pub fn plan(seed: u64, k: u64, corpus_len: usize, thorough: bool) -> (Plan, Rng)
   let hs_consumer = rng.next();
   let trials = 150 + rng.usize(250);
   let via_file = rng.chance(1, 8);
-  (Plan { program, hs_producer, hs_consumer, enumerate, trials, via_file }, rng)
+  let io_trials = 24 + rng.usize(40);
+  (Plan { program, hs_producer, hs_consumer, enumerate, trials, io_trials, via_file }, rng)
 }
 
 pub fn run(seed: u64, k: u64, corpus: &std::sync::Arc<Vec<(String, String)>>, thorough: bool, blackbox: Option<&str>) -> RunOut {
@@ -709,6 +710,8 @@ pub fn run(seed: u64, k: u64, corpus: &std::sync::Arc<Vec<(String, String)>>, th
   let prog_text = text.clone();
   let enumerate = pl.enumerate;
   let trials = pl.trials;
+  let io_trials = pl.io_trials;
+  let via_file_dir: Option<String> = if pl.via_file { Some(format!("/dev/shm/mechsim-{}", std::process::id())) } else { None };
   let stored2 = stored.clone();
   let consumer = crate::hashseed::on_node_thread(pl.hs_consumer, move || {
     let bytes = stored2;
@@ -762,13 +765,82 @@ pub fn run(seed: u64, k: u64, corpus: &std::sync::Arc<Vec<(String, String)>>, th
       trial(m, &mut counters, &mut violations, &mut dig);
     }
     for (n, c) in rejected_by { bump(&mut counters, &format!("reach:rejected-by:{}", n), c); }
-    (counters, violations, dig.finish())
+    // fault kind i: read-time faults between the medium and the real loader (hook H1)
+    let mut io_violations: Vec<(Violation, crate::w3io::ReadFaults, Vec<u8>)> = vec![];
+    {
+      use crate::w3io::*;
+      let reference0: Result<ParsedProgram, String> = match catch_unwind(AssertUnwindSafe(|| ParsedProgram::from_bytes(&bytes))) { Ok(Ok(p)) => Ok(p), Ok(Err(e)) => Err(e.kind_name()), Err(_) => Err("panicked".into()) };
+      let clean = load_through(&bytes, bytes.len() as u64, &ReadFaults { label: "no read faults".into(), ..Default::default() });
+      let (reads_hint, seeks_hint) = (clean.reads, clean.seeks);
+      if let Some(v) = judge_io(&ReadFaults { label: "no read faults".into(), ..Default::default() }, &clean, &reference0, bytes.len()) { io_violations.push((v, ReadFaults::default(), bytes.clone())); }
+      for _ in 0..io_trials {
+        let f = draw(&mut rng, bytes.len(), reads_hint, seeks_hint, &bytes);
+        // a third of the benign plans ride on a damaged file: the loader's answer must not depend on how the bytes arrive
+        let (data, reference): (Vec<u8>, Result<ParsedProgram, String>) = if f.benign() && rng.chance(1, 3) {
+          let m = match rng.below(4) { 0 => bitflip(&bytes, rng.usize(bytes.len() * 8)), 1 => crc_fixed_patch(&bytes, &mut rng), 2 => gen_truncation(bytes.len(), rng.usize(bytes.len())), _ => structural(&bytes, &mut rng) };
+          let d = m.apply(&bytes);
+          let r = match catch_unwind(AssertUnwindSafe(|| ParsedProgram::from_bytes(&d))) { Ok(Ok(p)) => Ok(p), Ok(Err(e)) => Err(e.kind_name()), Err(_) => { continue; } };
+          bump(&mut counters, "reach:i:on-damaged-file", 1);
+          (d, r)
+        } else { (bytes.clone(), reference0.clone()) };
+        if let Some(p) = &bb {
+          let j = json!({"world": "W3", "program": prog_name, "program_text": prog_text, "read_faults": f, "bytes_hex": hex(&data)});
+          std::fs::write(p, j.to_string()).ok();
+        }
+        let io = load_through(&data, data.len() as u64, &f);
+        bump(&mut counters, "fault:i", 1);
+        bump(&mut counters, "steps", 1);
+        bump(&mut counters, &format!("reach:i:plan:{}", f.subkind()), 1);
+        for (name, n) in &io.fired { if *n > 0 { bump(&mut counters, &format!("fault:i:{}", name), 1); } }
+        match &io.loaded {
+          Loaded::Ok(_) => { bump(&mut counters, "reach:i:loaded", 1); dig.str("i-ok"); }
+          Loaded::Err(e) => { bump(&mut counters, &format!("reach:i:rejected-by:{}", e), 1); dig.str(e); }
+          Loaded::Panicked(..) => { bump(&mut counters, "reach:loader-panicked", 1); dig.str("i-panic"); }
+        }
+        if let Some(v) = judge_io(&f, &io, &reference, data.len()) {
+          if !io_violations.iter().any(|x| x.0.signature == v.signature) && io_violations.len() < 8 { io_violations.push((v, f, data)); }
+        }
+      }
+    }
+    // damaged files through the file-based entry point: it must answer like from_bytes
+    if via_file_dir.is_some() {
+      let dir = via_file_dir.clone().unwrap();
+      for t in 0..24 {
+        let m = match rng.below(5) { 0 => gen_truncation(bytes.len(), rng.usize(bytes.len())), 1 => bitflip(&bytes, rng.usize(bytes.len() * 8)), 2 => burst(&bytes, &mut rng), 3 => crc_fixed_patch(&bytes, &mut rng), _ => structural(&bytes, &mut rng) };
+        let d = m.apply(&bytes);
+        let p = format!("{}/w3-damaged-{}.mecb", dir, t);
+        if std::fs::write(&p, &d).is_err() { continue; }
+        if let Some(bbp) = &bb { let j = json!({"world": "W3", "program": prog_name, "program_text": prog_text, "mutation": m, "via_file": true, "bytes_hex": hex(&d)}); std::fs::write(bbp, j.to_string()).ok(); }
+        take_last_panic();
+        crate::alloc::reset_largest();
+        let a = catch_unwind(AssertUnwindSafe(|| load_program_from_file(&p)));
+        let la = crate::alloc::largest();
+        std::fs::remove_file(&p).ok();
+        let b = catch_unwind(AssertUnwindSafe(|| ParsedProgram::from_bytes(&d)));
+        bump(&mut counters, "fault:f", 1);
+        let mut mf = m.clone(); mf.kind = "f".into();
+        let viol = match (&a, &b) {
+          (Err(pn), _) => { let (msg, loc) = take_last_panic().unwrap_or((crate::hashseed::panic_message(pn), String::new())); Some(("loader-panicked", format!("{}|{}", loc, msg_class(&msg)), format!("{}: load_program_from_file panicked: {}", m.label, trunc(&msg, 120)))) }
+          (Ok(Ok(x)), Ok(Ok(y))) if x == y => None,
+          (Ok(Ok(_)), Ok(Ok(_))) => Some(("file-entry-disagrees-with-bytes-entry", "program".to_string(), format!("{}: load_program_from_file and from_bytes decoded different programs from the same bytes", m.label))),
+          (Ok(Ok(_)), Ok(Err(e))) => Some(("file-entry-accepts-what-bytes-entry-rejects", String::new(), format!("{}: load_program_from_file accepted a file that from_bytes rejects with {}", m.label, e.kind_name()))),
+          (Ok(Err(e)), Ok(Ok(_))) => Some(("file-entry-rejects-what-bytes-entry-accepts", e.kind_name(), format!("{}: load_program_from_file rejected ({}) a file that from_bytes accepts", m.label, e.kind_name()))),
+          _ => None,
+        };
+        let viol = viol.or_else(|| if la > alloc_limit(d.len()) { Some(("unbounded-allocation", label_class(&m.label), format!("{}: largest single allocation {} bytes loading a {}-byte file through load_program_from_file", m.label, la, d.len()))) } else { None });
+        if let Some((class, detail, summary)) = viol {
+          let v = Violation { class: class.to_string(), signature: format!("{}|f|{}", class, detail), summary, mutation: Some(mf) };
+          if !violations.iter().any(|x| x.signature == v.signature) && violations.len() < 12 { violations.push(v); }
+        }
+      }
+    }
+    (counters, violations, io_violations, dig.finish())
   });
-  let (c2, viols, d2) = match consumer {
+  let (c2, viols, io_viols, d2) = match consumer {
     Ok(x) => x,
     Err(msg) => {
       let v = Violation { class: "host-aborted".into(), signature: format!("host-aborted|thread|{}", msg_class(&msg)), summary: format!("consumer thread died: {}", msg), mutation: None };
-      (BTreeMap::new(), vec![v], 0)
+      (BTreeMap::new(), vec![v], vec![], 0)
     }
   };
   for (key, n) in c2 { bump(&mut counters, &key, n); }
@@ -784,7 +856,16 @@ pub fn run(seed: u64, k: u64, corpus: &std::sync::Arc<Vec<(String, String)>>, th
       "faults": v.mutation.as_ref().map(|m| vec![m.label.clone()]).unwrap_or_default(),
     });
     (v, replay)
-  }).collect();
+  }).chain(io_viols.into_iter().map(|(v, f, data)| {
+    let replay = json!({
+      "world": "W3", "seed": seed, "run": k, "program": name, "program_text": text,
+      "hash_seed_producer": pl.hs_producer, "hash_seed_consumer": pl.hs_consumer,
+      "emitted_len": file_len, "read_faults": f, "bytes_hex": hex(&data),
+      "violation": {"class": v.class, "signature": v.signature, "summary": v.summary},
+      "faults": vec![f.label.clone()],
+    });
+    (v, replay)
+  })).collect();
   let sample = if k % 211 == 1 { json!({"run": k, "program": name, "text": text, "emitted_bytes": file_len, "trials": pl.trials, "complete_t_b_enumeration": pl.enumerate}) } else { J::Null };
   RunOut { digest: dig.finish(), nontrivial: true, counters, sets, violations, sample }
 }
@@ -813,7 +894,34 @@ pub fn replay_in_process(j: &J) -> Option<String> {
   let emitted_len = j["emitted_len"].as_u64().unwrap_or(bytes.len() as u64) as usize;
   let text = j["program_text"].as_str().unwrap_or("").to_string();
   let hsp = j["hash_seed_producer"].as_u64().unwrap_or(1);
+  let read_faults: Option<crate::w3io::ReadFaults> = if j["read_faults"].is_object() { serde_json::from_value(j["read_faults"].clone()).ok() } else { None };
+  let via_file = j["mutation"]["kind"].as_str() == Some("f") || j["via_file"].as_bool() == Some(true);
   let r = crate::hashseed::on_node_thread(hs, move || {
+    if let Some(f) = read_faults {
+      let reference: Result<ParsedProgram, String> = match catch_unwind(AssertUnwindSafe(|| ParsedProgram::from_bytes(&bytes))) { Ok(Ok(p)) => Ok(p), Ok(Err(e)) => Err(e.kind_name()), Err(_) => Err("panicked".into()) };
+      let io = crate::w3io::load_through(&bytes, bytes.len() as u64, &f);
+      println!("loaded {} bytes through the faulty reader ({}): {:?} reads={} seeks={} fired={:?} largest allocation {}", bytes.len(), f.label, match &io.loaded { crate::w3io::Loaded::Ok(_) => "Ok".to_string(), o => format!("{:?}", o) }, io.reads, io.seeks, io.fired, io.largest_alloc);
+      return crate::w3io::judge_io(&f, &io, &reference, bytes.len()).map(|v| v.signature);
+    }
+    if via_file {
+      let p = format!("/dev/shm/mechsim-replay-{}.mecb", std::process::id());
+      std::fs::write(&p, &bytes).ok();
+      take_last_panic();
+      crate::alloc::reset_largest();
+      let a = catch_unwind(AssertUnwindSafe(|| load_program_from_file(&p)));
+      let la = crate::alloc::largest();
+      std::fs::remove_file(&p).ok();
+      let b = catch_unwind(AssertUnwindSafe(|| ParsedProgram::from_bytes(&bytes)));
+      println!("load_program_from_file: {:?}; from_bytes: {:?}; largest allocation {}", a.as_ref().map(|r| r.as_ref().map(|_| "Ok").map_err(|e| e.kind_name())).map_err(|_| "panic"), b.as_ref().map(|r| r.as_ref().map(|_| "Ok").map_err(|e| e.kind_name())).map_err(|_| "panic"), la);
+      return match (&a, &b) {
+        (Err(pn), _) => { let (msg, loc) = take_last_panic().unwrap_or((crate::hashseed::panic_message(pn), String::new())); Some(format!("loader-panicked|f|{}|{}", loc, msg_class(&msg))) }
+        (Ok(Ok(x)), Ok(Ok(y))) if x == y => None,
+        (Ok(Ok(_)), Ok(Ok(_))) => Some("file-entry-disagrees-with-bytes-entry|f|program".to_string()),
+        (Ok(Ok(_)), Ok(Err(_))) => Some("file-entry-accepts-what-bytes-entry-rejects|f|".to_string()),
+        (Ok(Err(e)), Ok(Ok(_))) => Some(format!("file-entry-rejects-what-bytes-entry-accepts|f|{}", e.kind_name())),
+        _ => if la > alloc_limit(bytes.len()) { Some("unbounded-allocation|f|".to_string()) } else { None },
+      };
+    }
     match mutation {
       Some(m) => { let fr = feed(&bytes, None); println!("fed {} bytes ({}): {:?}, largest allocation {}", bytes.len(), m.label, fr.fed, fr.largest_alloc); judge(&m, &fr, emitted_len).map(|v| v.signature) }
       None => {
